@@ -24,6 +24,9 @@ def gen_case(rng, chk, n):
         pool += cls[name]
         chk.bump("keyclass:" + name)
     vals = [0, 1, 2, 3, rng.randrange(0, U64 - 1), rng.randrange(0, 2**32)]
+    if rng.random() < 0.4:
+        vals += [U64 - 1, U64 - 1]              # all-ones is a legal value although lookup uses it as the not-found marker
+        chk.bump("value:all-ones")
     ops = []
     for _ in range(n):
         r = rng.random()
@@ -70,6 +73,18 @@ def list_exhaustive(depth):
         yield list(seq) + ["llen", "llast"]
 
 
+def marker_cases():
+    """the all-ones value (lookup's not-found marker) stored, overwritten, looked up by value, removed; alone and in a chain"""
+    A = U64 - 1
+    out = []
+    for k in (0, 5, 106):
+        for pre in ([], ["ins 5 1", "ins 106 2", "ins 207 3"]):
+            out.append(pre + ["ins %d %d" % (k, A), "get %d" % k, "keys", "vals", "lbv %d" % A, "ins %d 7" % k, "get %d" % k, "keys", "vals",
+                              "lbv %d" % A, "lbv 7", "rem %d" % k, "get %d" % k, "keys", "vals"])
+            out.append(pre + ["ins %d 7" % k, "ins %d %d" % (k, A), "ins %d %d" % (k, A), "keys", "vals", "lbv %d" % A, "rem %d" % k, "keys", "vals", "lbv %d" % A])
+    return out
+
+
 def spec_view(op, line):
     """the spec says *which* keys/values are listed, not in which order"""
     o = op.split()[0] if op else ""
@@ -93,7 +108,7 @@ def run(chk):
     fam = diffrun.Family("ht", exe, spec_view=spec_view)
     thorough = chk.tier == "thorough"
     rng = chk.rng
-    cases = []
+    cases = marker_cases()
     # corpus first
     cases += pv.load_corpus("C15")
     # direct probes of the hash arithmetic: every INT_MAX-adjacent low word, sign boundaries
@@ -114,7 +129,7 @@ def run(chk):
                        "exhaustive sequences of length %d over 4 keys (3 colliding) and list sequences; a case is distinct by the hash of its op file, "
                        "non-trivial when it has more than one op" % ex_depth)
     chk.cov["exhaustive"] = False
-    chk.assumptions += ["x86-64: int 32 bit, pointers 64 bit", "a stored value equal to (ppointer)-1 is excluded (API cannot distinguish it from not-found)",
+    chk.assumptions += ["x86-64: int 32 bit, pointers 64 bit", "a stored value equal to (ppointer)-1 reads as not-found through p_hash_table_lookup (documented marker); keys/values/lookup_by_value tell them apart and are compared",
                         "allocation never fails in this check (C18 covers failure)"]
     return chk.finish()
 
